@@ -38,7 +38,7 @@ def build(tier, known):
                          bound=f'{dom}; length exactly {n}; symbolic current line L in a document of T lines; every feasible MIR path pair explored',
                          claim=CLAIM, native=('data', 'n_c08_value'), parts=(16 if (n >= 6 or (n >= 3 and not params.get('ascii_only', True))) else (8 if n == 5 else 1)), timeout=900 if q else 7200))
     hs.append(Harness('n_attr_text', 'data', 'parser.rs', '', functions=[], bound='', claim='', role='native'))
-    for n in range(0, (5 if q else 7) + 1):
+    for n in range(0, (5 if q else 6) + 1):
         hs.append(E2Spec(f'e2_c08_attrtext_n{n}', 'AttrText', dict(n=n, mode='relational'),
                          functions=['parser::ArxmlParser::parse_attribute_text', 'parser::ArxmlParser::parse_character_data', 'parser::ArxmlParser::check_version', 'parser::ArxmlParser::optional_error'],
                          bound=f'all ASCII attribute texts of length exactly {n}; element type with two attributes (string-typed, unsigned-integer-typed) with symbolic names, required flags and version masks; attribute-name lookup uninterpreted; any single-bit file version',
@@ -62,10 +62,19 @@ def build(tier, known):
         hs.append(E2Spec(f'e2_c08_doc_len{L}', 'ParseElementDocs', dict(length=L, aspect='c08'), functions=PFUNCS,
                          bound=f'ALL {11 ** L} token sequences of length exactly {L} as the body of the root element; ' + SCHEMA,
                          claim='strict Ok <=> lenient Ok without warnings; first lenient warning = strict error; strict Ok => the document is valid for the schema (known sub-elements in context and version, single-occurrence elements not repeated, SHORT-NAME present, character content only where allowed, proper nesting, nothing but white space / comments after the root)', native=('data', 'n_parse_element_doc'), parts=(16 if L >= 4 else (4 if L == 3 else 1)), timeout=1500 if q else 7200))
-    for base in ([0, 1, 2, 3, 4, 7, 9, 10] if q else range(0, 11)):
-        hs.append(E2Spec(f'e2_c08_doc_edits{base}', 'ParseElementDocs', dict(base=base, aspect='c08', sym_texts=(2 if base < 5 else 1)), functions=PFUNCS,
+    for base in ([0, 1, 2, 3, 4, 7, 9, 10, 11] if q else range(0, 12)):
+        hs.append(E2Spec(f'e2_c08_doc_edits{base}', 'ParseElementDocs', dict(base=base, aspect='c08', sym_texts=(2 if base < 5 or base == 11 else 1), sym_comments=(1 if base == 3 else 0)), functions=PFUNCS,
                          bound=f'seed document no. {base} of mirsym/e2defs.py VALID_DOCS (valid documents and documents with one defect) and ALL its single-token edits (delete, duplicate, replace by any token, insert any token anywhere); ' + SCHEMA,
-                         claim='strict Ok <=> lenient Ok without warnings; first lenient warning = strict error; strict Ok => the document is valid for the schema (known sub-elements in context and version, single-occurrence elements not repeated, SHORT-NAME present, character content only where allowed, proper nesting, nothing but white space / comments after the root)', native=('data', 'n_parse_element_doc'), parts=(16 if base in (4, 5, 6, 7, 8) else 8), timeout=1500 if q else 7200))
+                         claim='strict Ok <=> lenient Ok without warnings; first lenient warning = strict error; strict Ok => the document is valid for the schema (known sub-elements in context and version, single-occurrence elements not repeated, SHORT-NAME present, character content only where allowed, proper nesting, nothing but white space / comments after the root)', native=('data', 'n_parse_element_doc'), parts=(16 if base in (4, 5, 6, 7, 8, 11) else 8), timeout=1500 if q else 7200))
+    for K in range(0, (3 if q else 4) + 1):
+        hs.append(E2Spec(f'e2_c08_doc_children{K}', 'ParseElementDocs', dict(children=K, aspect='c08', sym_texts=2, sym_comments=1), functions=PFUNCS,
+                         bound=f'one AR-PACKAGE with ALL {6 ** K} sequences of exactly {K} children, each one of: SHORT-NAME with a text, CATEGORY with a text, empty AR-PACKAGES, a comment, a stray text, SHORT-NAME without text; the first two texts are one symbolic byte, the first comment has three symbolic bytes; ' + SCHEMA,
+                         claim='strict Ok <=> lenient Ok without warnings; first lenient warning = strict error; strict Ok => the document is valid for the schema (known sub-elements in context and version, single-occurrence elements not repeated, SHORT-NAME present, character content only where allowed, proper nesting, nothing but white space / comments after the root)', native=('data', 'n_parse_element_doc'), parts=(16 if K >= 3 else (4 if K == 2 else 1)), timeout=1500 if q else 7200))
+    # ---- mixed content (documentation text): the third layout branch of the serializer, inline comments, attributes ----
+    MIXED = 'schema extension for mixed content: AR-PACKAGE > DESC (0..1) > L-2* (Mixed content, required enum attribute L) > BR (empty element), SUP (character element), text; 8 more tokens (<DESC>, </DESC>, <L-2 L="EN">, </L-2>, <BR/>, <SUP>, </SUP>, <L-2>); package SHORT-NAME fixed to x'
+    hs.append(E2Spec('e2_c08_doc_mixed_edits', 'ParseElementDocs', dict(mixed_base=0, aspect='c08rel', sym_texts=2, first_text_concrete=True), functions=PFUNCS,
+                     bound='the seed <AR-PACKAGES><AR-PACKAGE><SHORT-NAME>x</SHORT-NAME><DESC><L-2 L="EN">?<BR/>x</L-2></DESC></AR-PACKAGE></AR-PACKAGES></AUTOSAR> and ALL its single-token edits over the 19 tokens; ' + MIXED + '; ' + SCHEMA,
+                     claim='strict Ok <=> lenient Ok without warnings; first lenient warning = strict error (relation only: the independent schema reader does not cover mixed content)', native=('data', 'n_parse_element_doc'), parts=16, timeout=1500 if q else 7200))
     info = dict(
         assumptions=['E2 library models (mirsym/models.py) are trusted and validated against the native build',
                      'the pattern validator, f64 parsing and the enum item lookup are uninterpreted deterministic functions: the claim holds for every validator / table'],
